@@ -239,6 +239,7 @@ func (t *Target) WaitUntilHealthy(timeout time.Duration) bool {
 func (t *Target) HealthCheckCompleted(success bool) {
 	previousState := t.state
 	newState := t.state
+	becameHealthy := false
 
 	t.withInflightLock(func() {
 		switch success {
@@ -246,7 +247,7 @@ func (t *Target) HealthCheckCompleted(success bool) {
 			switch t.state {
 			case TargetStateAdding:
 				t.state = TargetStateHealthy
-				close(t.becameHealthy)
+				becameHealthy = true
 			default:
 				t.state = TargetStateHealthy
 			}
@@ -265,6 +266,12 @@ func (t *Target) HealthCheckCompleted(success bool) {
 		if t.stateConsumer != nil {
 			t.stateConsumer.TargetStateChanged(t)
 		}
+	}
+
+	// Signal waiters only once the state consumer has seen the change, so
+	// that the target is already in rotation when a deploy proceeds.
+	if becameHealthy {
+		close(t.becameHealthy)
 	}
 }
 
